@@ -247,13 +247,20 @@ class RustGen:
                 arms.append("        %d => match c.form.as_str() { \"str\" => rt::run_node::<Rule, S%d<'_>, _>(c.s.as_str().as_input()), \"pos\" => rt::run_node::<Rule, S%d<'_>, _>(pest_typed::Position::new(&c.s, c.a).unwrap().as_input()), _ => rt::run_node::<Rule, S%d<'_>, _>(pest_typed::Span::new(&c.s, c.a, c.b).unwrap().as_input()) }," % (i, i, i, i))
             else:
                 shape_types.append("pub type S%d<'i> = rules::%s<'i, 1>;" % (i, sh[1]))
-                arms.append("        %d => match c.form.as_str() { \"str\" => rt::run_rule::<Rule, S%d<'_>, _>(c.s.as_str()), \"pos\" => rt::run_rule::<Rule, S%d<'_>, _>(pest_typed::Position::new(&c.s, c.a).unwrap()), _ => rt::run_rule::<Rule, S%d<'_>, _>(pest_typed::Span::new(&c.s, c.a, c.b).unwrap()) }," % (i, i, i, i))
+                arms.append("        %d => match c.form.as_str() { \"str\" => rt::run_rule::<Rule, S%d<'_>, _>(c.s.as_str(), &|r, k, p| audit(r, k, c, p)), \"pos\" => rt::run_rule::<Rule, S%d<'_>, _>(pest_typed::Position::new(&c.s, c.a).unwrap(), &|r, k, p| audit(r, k, c, p)), _ => rt::run_rule::<Rule, S%d<'_>, _>(pest_typed::Span::new(&c.s, c.a, c.b).unwrap(), &|r, k, p| audit(r, k, c, p)) }," % (i, i, i, i))
         big = []
         for n in sorted(self.big_seq):
             big.append('pest_typed::seq!(Seq%d, %d, %s);' % (n, n, ' '.join('T%d, %d,' % (i, i) for i in range(n))))
         for n in sorted(self.big_choice):
             big.append('pest_typed::choices!(Choice%d, choice%d, %d, %s);' % (n, n, n, ' '.join('T%d, _%d,' % (i, i) for i in range(n))))
         names = ['EOI'] + [r[0] for r in env.rules]
+        # semantic audit of error reports: only for environments whose rules do not read the stack
+        audit_arms = []
+        if getattr(env, 'audit', False):
+            for ri, rn in enumerate(names):
+                for k in (0, 1):
+                    t = "rules::%s<'_, %d>" % (rn, k)
+                    audit_arms.append("        (%d, %d) => Some(match c.form.as_str() { \"str\" => rt::matches_at::<Rule, %s, _>(c.s.as_str().as_input(), pos), \"pos\" => rt::matches_at::<Rule, %s, _>(pest_typed::Position::new(&c.s, c.a).unwrap().as_input(), pos), _ => rt::matches_at::<Rule, %s, _>(pest_typed::Span::new(&c.s, c.a, c.b).unwrap().as_input(), pos) })," % (ri, k, t, t, t))
         ids = ', '.join('"%s"' % env.shape_id(i) for i in range(len(env.shapes)))
         return '''// generated by vlib/texpr.py -- environment %(name)s
 #![allow(non_camel_case_types, dead_code, unused_imports, clippy::all)]
@@ -284,6 +291,13 @@ pub mod rules {
 
 pub const IDS: &[&str] = &[%(ids)s];
 
+pub fn audit(rule: usize, k: usize, c: &rt::Case, pos: usize) -> Option<bool> {
+    match (rule, k) {
+%(audit_arms)s
+        _ => None,
+    }
+}
+
 pub fn run(shape: usize, c: &rt::Case) -> String {
     match shape {
 %(arms)s
@@ -292,4 +306,4 @@ pub fn run(shape: usize, c: &rt::Case) -> String {
 }
 ''' % dict(name=env.name, variants=', '.join(names), wrappers='\n'.join('    ' + w for w in self.wrappers),
            big='\n'.join(big), skip=skip_ty, rules='\n'.join(rule_defs), shape_types='\n'.join(shape_types),
-           ids=ids, arms='\n'.join(arms))
+           ids=ids, arms='\n'.join(arms), audit_arms='\n'.join(audit_arms))
